@@ -35,8 +35,7 @@ def Op.atomic : Op → Bool
 
 /-- operations after which names are still pairwise different -/
 def Op.keepsNames : Op → Bool
-  | .setParam .. | .apNamespace .. => false
-  | .subIdxs _ _ idx => decide idx.Nodup
+  | .apNamespace .. => false
   | _ => true
 
 /-- clause `bulk_atomic`: an atomic operation that raised changed nothing -/
